@@ -6,10 +6,11 @@
 (*                                                                         *)
 (* Objects of ONE collection sit on numbered cells (0 = the object does    *)
 (* not exist, -1 = it exists as a string value, i.e. without a position)   *)
-(* and carry one numeric field.  The constant Fences lists all  *)
-(* fences registered on the collection.  Every write (SET, FSET, DEL,      *)
-(* PDEL, DROP, expiry of a SET .. EX) yields, for EVERY fence, the list of *)
-(* notifications the fence's receiver must see.  Geometry is NOT computed  *)
+(* and carry one numeric field.  The constants Classes / Fences list all   *)
+(* fences registered on the collection (a class = everything but DETECT).  *)
+(* Every write (SET, SET .. STRING, FSET, DEL, PDEL, DROP, expiry of a     *)
+(* SET .. EX) yields, for EVERY fence, the list of notifications the       *)
+(* fence's receiver must see (hist).  Geometry is NOT computed             *)
 (* here: whether an object placed on a cell satisfies the spatial test of  *)
 (* an area (Inside), whether the straight segment between two cell centres *)
 (* meets the area (Cross) and the bounding-rectangle relations the server  *)
@@ -29,10 +30,12 @@
 (* Delivery: webhooks and channels see a fence only if the server          *)
 (* pre-selects it (internal/server/aof.go getQueueCandidates: fences that  *)
 (* detect `outside', R-tree hits of the old / new / union rectangle), live *)
-(* connections evaluate every write of their key (live.go).  TransportsAgree*)
-(* states that the pre-selection never loses a message.                    *)
+(* connections evaluate every write of their key (live.go).                *)
+(* TransportsAgree states that the pre-selection never loses a message.    *)
 (*                                                                         *)
-(* Variant names a deliberately broken design; TLC refutes each of them.   *)
+(* Variant names a deliberately broken design; TLC refutes each of them    *)
+(* (StrOrigin is how the code behaved before fix e8f0d45: a previous       *)
+(* string value was treated as a position at longitude 0 / latitude 0).    *)
 (***************************************************************************)
 EXTENDS Integers, Sequences, FiniteSets, TLC
 
